@@ -72,10 +72,14 @@ func (m *Mutex) Unlock() {
 
 // ---------------------------------------------------------------- RWMutex
 
+// RWMutex models sync.RWMutex including writer preference: once a Lock call has arrived, later RLock
+// calls wait until that writer has acquired and released the lock (a recursive read lock with a writer
+// in between deadlocks, as it does with the real one).
 type RWMutex struct {
 	mu      sync.RWMutex
 	readers int
 	writer  bool
+	pending int // Lock calls that have arrived and not yet acquired
 }
 
 func (m *RWMutex) Lock() {
@@ -84,9 +88,10 @@ func (m *RWMutex) Lock() {
 		m.mu.Lock()
 		return
 	}
+	vrt.Point(&vrt.Op{Kind: "lock-arrive", Obj: m, Apply: func() { m.pending++ }})
 	vrt.Point(&vrt.Op{Kind: "lock", Obj: m,
 		Enabled: func() bool { return !m.writer && m.readers == 0 },
-		Apply:   func() { m.writer = true; s.Held++ }})
+		Apply:   func() { m.writer = true; m.pending--; s.Held++ }})
 }
 
 func (m *RWMutex) Unlock() {
@@ -112,7 +117,7 @@ func (m *RWMutex) RLock() {
 		return
 	}
 	vrt.Point(&vrt.Op{Kind: "rlock", Obj: m,
-		Enabled: func() bool { return !m.writer },
+		Enabled: func() bool { return !m.writer && m.pending == 0 },
 		Apply:   func() { m.readers++; s.Held++ }})
 }
 
@@ -155,7 +160,7 @@ func (m *RWMutex) TryRLock() bool {
 	}
 	ok := false
 	vrt.Point(&vrt.Op{Kind: "trylock", Obj: m, Apply: func() {
-		if !m.writer {
+		if !m.writer && m.pending == 0 {
 			m.readers++
 			s.Held++
 			ok = true
